@@ -18,5 +18,5 @@ CONSTANTS
   Deterministic = TRUE
   Manual = FALSE
   Focus19 <- TrueDef
-INVARIANTS TypeOK SweeperArmed ReadStreamIsRetainedSuffix ReadStateIsRefPage PageAfterCursor OrderedFlagFollowsOptions
+INVARIANTS TypeOK SweeperArmed SubscriberConverges ReadStreamIsRetainedSuffix ReadStateIsRefPage PageAfterCursor OrderedFlagFollowsOptions
 CHECK_DEADLOCK FALSE
